@@ -11,8 +11,8 @@ def U(name, entry, enforce=None, reach=(), **kw):
 
 
 def B(name, entry, reach, **kw):
-    return U(name, entry, None, reach, kind="bounded", bound="lists of at most 3 elements, values symbolic",
-             cbmc=["--unwind", "6", "--unwinding-assertions"], **kw)
+    kw.setdefault("bound", "lists of at most 3 elements, values symbolic")
+    return U(name, entry, None, reach, kind="bounded", cbmc=["--unwind", "6", "--unwinding-assertions"], **kw)
 
 
 UNITS = [
@@ -28,5 +28,13 @@ UNITS = [
     B("append_list.bounded", "h_b_append_list", ["b_append_list.return"]),
 ]
 TRUSTED = ["cbmc 6.11.0 / goto-instrument DFCC / CaDiCaL", "goto-cc C++ front end; List.hpp with compat rule R1"]
-ASSUMPTIONS = []
-EXPLANATION = ""
+ASSUMPTIONS = [
+    "ONLY List is covered (Array and PoolList are not: Array<T>/PoolList<T> need class-typed T and explicit ->~T() calls goto-cc rejects)",
+    "step contracts (insert, remove, swap) hold for ANY list: the neighbourhood (position, predecessor, free item, sentinel) is symbolic, "
+    "the rest of the list is unconstrained; sequence semantics follows from the relinking postconditions by induction over operations (paper)",
+    "operations that walk the whole list (copy, assignment, clear, find, ==, sort, append(list), destruction) are BOUNDED stand-ins "
+    "(<= 3 elements, <= 2 for assignment) and not counted as proved",
+    "element construction / destruction counts (C04) are not checked: goto-cc does not run member destructors in explicit destructor calls",
+]
+EXPLANATION = ("List::insert / remove / swap are verified against relinking contracts with exact frames over symbolic neighbourhoods; "
+               "whole-list operations are checked on bounded lists against a reference sequence.")
